@@ -92,6 +92,7 @@ type Case struct {
 // Violation is a property-level failure found by a monitor on the implementation.
 type Violation struct {
 	Property string `json:"property"`
+	Key      string `json:"key,omitempty"` // stable failure-class key, matched against known_findings.json
 	What     string `json:"what"`
 	Input    any    `json:"input"`
 	Observed any    `json:"observed"`
